@@ -28,4 +28,66 @@ PLANS = {
     "C02": dict(level="exploration", stages=both("c02"), assumptions=ASSUME_REF),
     "C03": dict(level="exploration", stages=both("c03"), assumptions=ASSUME_REF),
     "C04": dict(level="exploration", stages=both("c04"), assumptions=ASSUME_REF),
+    "C05": dict(level="exploration", stages=both("c05"), assumptions=ASSUME_REF),
+    "C06": dict(level="exploration", stages=both("c06"), assumptions=ASSUME_REF),
+    "C07": dict(level="exploration", stages=both("c07"), assumptions=ASSUME_REF),
+    "C08": dict(level="exploration", stages=both("c08"), assumptions=ASSUME_REF),
+    "C09": dict(level="exploration", stages=both("c09"), assumptions=ASSUME_REF),
+    "C10": dict(level="exploration", stages=both("c10"),
+                assumptions=["the harness's own bit-field writer (gen::set_eta_field) addresses the FIPS 204 skEncode layout; it is cross-checked against the reference skDecode in-range predicate"]),
+    "C11": dict(level="exploration", stages=both("c11"), assumptions=ASSUME_REF),
+    "C12": dict(level="fault_enumeration", stages=both("c12") + [dict(name="c12-strace", kind="py", func="c12_strace", tiers=["thorough"])],
+                assumptions=["rand_core 0.6 RngCore/CryptoRng is the only randomness interface of the crate", "OsRng draws through the getrandom syscall on this platform (checked by the strace stage)"]),
+    "C13": dict(level="exploration",
+                stages=[vh("c13-checked", "c13", "checked", abort_is_violation=True),
+                        vh("c13-release", "c13", "release", abort_is_violation=True),
+                        vh("c13f4-checked", "c13f4", "checked", abort_is_violation=True, timeout=dict(quick=900, thorough=5400))],
+                assumptions=["panics are observed through catch_unwind + panic hook in a build with debug-assertions and overflow-checks on (profile 'checked', opt-level 2); aborts through the stage's exit signal",
+                             "a watchdog kill (hang) is reported as inconclusive; termination of the signing loop is decided by the logical bound (16-bit counter overflow check), not by wall-clock"]),
+    "C15": dict(level="exploration", stages=both("c15"),
+                assumptions=["big-integer definitions in harness/vh/src/props/c15.rs (cross-checked against the reference model at start-up) are the FIPS 204 definitions of the auxiliary functions",
+                             "'documented input range' = the debug_assert preconditions / doc comments in helpers.rs"]),
 }
+
+
+def c12_strace(a):
+    """syscall-level monitor: exactly one getrandom(…, 32, 0) per OS-RNG API call"""
+    exe = a["build"]("release")
+    if exe is None:
+        raise Inconclusive("build failed")
+    if not shutil.which("strace"):
+        raise Inconclusive("strace not available")
+    calls = 6
+    out = os.path.join(a["work"], "c12-strace.txt")
+    rep = os.path.join(a["work"], "c12-strace-report.json")
+    t0 = time.time()
+    r = subprocess.run(["strace", "-f", "-e", "trace=getrandom", "-o", out, exe, "c12os", "--opt", f"calls={calls}", "--out", rep],
+                       stdout=subprocess.PIPE, stderr=subprocess.PIPE, text=True, timeout=600)
+    if not os.path.exists(rep) or not os.path.exists(out):
+        raise Inconclusive(f"strace could not run the workload: {r.stderr[-300:]}")
+    with open(rep) as f:
+        vr = json.load(f)
+    os_calls = vr.get("counters", {}).get("os_calls", 0)
+    n32 = 0
+    other = []
+    for line in open(out):
+        m = re.search(r"getrandom\((.*?), (\d+), ([A-Z_|0-9x]+)\)\s+= (-?\d+)", line)
+        if not m:
+            continue
+        ln, ret = int(m.group(2)), int(m.group(4))
+        if ln == 32 and ret == 32:
+            n32 += 1
+        else:
+            other.append((ln, ret))
+    violations = []
+    if os_calls == 0:
+        raise Inconclusive("no OS-RNG calls were made")
+    if n32 != os_calls:
+        violations.append(dict(signature=f"C12|getrandom-count|calls={os_calls}|syscalls32={n32}",
+                               detail=f"{os_calls} OS-RNG API calls made {n32} getrandom(32) syscalls (expected one fresh 32-byte draw per call)",
+                               replay=dict(kind="c12-strace", calls=calls)))
+    return dict(property_id="C12", stage="c12-strace", build="release", tier=a["tier"], seed=a["seed"],
+                rule="strace -e trace=getrandom around a loop of try_keygen / KG::try_keygen / try_sign / try_hash_sign calls",
+                exhaustive=False, evaluations=os_calls, distinct_nontrivial=n32,
+                samples=[dict(os_rng_api_calls=os_calls, getrandom_32_byte_syscalls=n32, other_getrandom_calls=other[:6])],
+                counters=dict(os_rng_api_calls=os_calls, getrandom32=n32), violations=violations, inconclusive=[], wall_s=time.time() - t0)
